@@ -40,6 +40,7 @@ def store_cases(rng, n):
             t = rng.choice([62, 63, 64]) - nf
             if t >= 0: v = rng.choice([1, -1]) * ((1 << t) + rng.choice([0, 1, -1, rng.randint(0, 1 << max(t - 1, 0))]))
         cases.append({'s': s, 'nw': nw, 'nf': nf, 'r': rng.choice(RMODES), 'o': rng.choice(OMODES), 'v': v, 'route': rng.choice(S.ROUTES)})
+        if cases[-1]['route'] == 'setitem' and nw <= 50 and rng.random() < 0.4: cases[-1]['route'] = 'setitem_cplx'
     return cases
 
 def run_store(cases, res):
@@ -51,9 +52,15 @@ def run_store(cases, res):
             if c['route'] == 'ctor': x = fx.Fxp(c['v'], c['s'], c['nw'], c['nf'], **kw)
             elif c['route'] == 'call': x = fx.Fxp(None, c['s'], c['nw'], c['nf'], **kw); x(c['v'])
             elif c['route'] == 'set_val': x = fx.Fxp(None, c['s'], c['nw'], c['nf'], **kw); x.set_val(c['v'])
+            elif c['route'] == 'setitem_cplx':
+                # the array took a COMPLEX element earlier (its value type is complex since then): a Python integer written by index afterwards
+                # is stored in the real part exactly as into a real array
+                x = fx.Fxp([0, 0, 0], c['s'], c['nw'], c['nf'], **kw); x[0] = 0j; x.reset(); x[2] = c['v']
+                codes = [int(np.asarray(x.val).reshape(-1)[2].real)]
+                if np.asarray(x.val).reshape(-1)[2].imag != 0: codes = ['imaginary part set']
             else:
                 x = fx.Fxp([0, 0], c['s'], c['nw'], c['nf'], **kw); x[1] = c['v']
-            codes = lib.codes_of(x)
+            if c['route'] != 'setitem_cplx': codes = lib.codes_of(x)
             impl_out.append({'code': codes[-1], 'status': lib.status3(x)})
         except Exception as e:
             impl_out.append({'exc': lib.exc_name(e), 'msg': str(e)[:200]})
